@@ -15,14 +15,40 @@ def PendingAt (s : Sys) (w : Rec) : Prop :=
   (∃ i e, s.log[i]? = some e ∧ core e = Routing.route w ∧
     ∀ k n, filteredOut (.step w.status k n) i e = false → s.cursor (.step w.status k n) ≤ i)
 
+/-- what the step consumer's `Recv` established: nothing of its topic lies between its cursor and the event it is handling -/
+def NoGap (s : Sys) (p : Proc) (i : Nat) : Prop :=
+  ∀ j e, s.cursor p ≤ j → j < i → s.log[j]? = some e → subscribed p e = false
+
+/-- a consumer parked in the lag wait holds event `i` of its own topic, the first one at or after its cursor -/
+def LagOk (s : Sys) (p : Proc) (i : Nat) : Prop := (∃ e, s.log[i]? = some e ∧ subscribed p e = true) ∧ NoGap s p i
+
+/-- the delete request `w` (a RequestedDataDeleted record) is still ahead of the delete consumer -/
+def PendingDel (s : Sys) (w : Rec) : Prop :=
+  (∃ o ∈ s.outbox, o.ev = Routing.route w) ∨
+  (∃ i e, s.log[i]? = some e ∧ core e = Routing.route w ∧ s.cursor .delete ≤ i)
+
 structure TokInv (s : Sys) : Prop where
   pending : ∀ rid w, s.cur rid = some w → Live w → PendingAt s w
   cursorLe : ∀ st k n, s.cursor (.step st k n) ≤ s.log.length
-  noLag : ∀ st k n i u, s.pstate (.step st k n) ≠ .lagWait i u
+  lag : ∀ st k n i u, s.pstate (.step st k n) = .lagWait i u → LagOk s (.step st k n) i
+  pendingDel : ∀ rid w, s.cur rid = some w → w.runState = 7 → PendingDel s w
+  cursorLeDel : s.cursor .delete ≤ s.log.length
+  noLagDel : ∀ i u, s.pstate .delete ≠ .lagWait i u
 
 theorem TokInv.init : TokInv {} := by
-  refine ⟨fun rid w h => ?_, fun _ _ _ => by simp [Sys.cursor], fun _ _ _ _ _ => by simp [Sys.pstate]⟩
-  simp [Sys.cur] at h
+  refine ⟨fun rid w h => ?_, fun _ _ _ => by simp [Sys.cursor], fun _ _ _ _ _ h => by simp [Sys.pstate] at h,
+    fun rid w h => ?_, by simp [Sys.cursor], fun _ _ => by simp [Sys.pstate]⟩
+  · simp [Sys.cur] at h
+  · simp [Sys.cur] at h
+
+/-- the log only grew and the consumer's cursor did not move back -/
+theorem LagOk.mono {s s' : Sys} {p : Proc} {i : Nat} (h : LagOk s p i)
+    (hlog : ∀ j, j < s.log.length → s'.log[j]? = s.log[j]?) (hcur : s.cursor p ≤ s'.cursor p) : LagOk s' p i := by
+  obtain ⟨⟨e, he, hsub⟩, hg⟩ := h
+  have hi : i < s.log.length := (List.getElem?_eq_some_iff.mp he).1
+  refine ⟨⟨e, by rw [hlog i hi]; exact he, hsub⟩, fun j e' h1 h2 h3 => ?_⟩
+  rw [hlog j (by omega)] at h3
+  exact hg j e' (by omega) h2 h3
 
 /-- nothing the invariant reads has changed -/
 theorem TokInv.frame {s s' : Sys} (h : TokInv s) (h1 : s'.runs = s.runs) (h2 : s'.outbox = s.outbox) (h3 : s'.log = s.log)
@@ -30,11 +56,17 @@ theorem TokInv.frame {s s' : Sys} (h : TokInv s) (h1 : s'.runs = s.runs) (h2 : s
   have hcur : ∀ rid, s'.cur rid = s.cur rid := fun rid => by unfold Sys.cur; rw [h1]
   have hc : ∀ p, s'.cursor p = s.cursor p := fun p => by unfold Sys.cursor; rw [h4]
   refine ⟨fun rid w hw hl => ?_, fun st k n => by rw [hc, h3]; exact h.cursorLe st k n,
-    fun st k n i u => by unfold Sys.pstate; rw [h5]; exact h.noLag st k n i u⟩
-  rw [hcur] at hw
-  rcases h.pending rid w hw hl with ⟨o, ho, he⟩ | ⟨i, e, hi, hc', hk⟩
-  · exact Or.inl ⟨o, by rw [h2]; exact ho, he⟩
-  · exact Or.inr ⟨i, e, by rw [h3]; exact hi, hc', fun k n hf => by rw [hc]; exact hk k n hf⟩
+    fun st k n i u hp => (h.lag st k n i u (by unfold Sys.pstate at hp ⊢; rw [← h5]; exact hp)).mono (fun j _ => by rw [h3]) (by rw [hc]; exact Nat.le_refl _),
+    fun rid w hw hl => ?_, by rw [hc, h3]; exact h.cursorLeDel,
+    fun i u => by unfold Sys.pstate; rw [h5]; exact h.noLagDel i u⟩
+  · rw [hcur] at hw
+    rcases h.pending rid w hw hl with ⟨o, ho, he⟩ | ⟨i, e, hi, hc', hk⟩
+    · exact Or.inl ⟨o, by rw [h2]; exact ho, he⟩
+    · exact Or.inr ⟨i, e, by rw [h3]; exact hi, hc', fun k n hf => by rw [hc]; exact hk k n hf⟩
+  · rw [hcur] at hw
+    rcases h.pendingDel rid w hw hl with ⟨o, ho, he⟩ | ⟨i, e, hi, hc', hk⟩
+    · exact Or.inl ⟨o, by rw [h2]; exact ho, he⟩
+    · exact Or.inr ⟨i, e, by rw [h3]; exact hi, hc', by rw [hc]; exact hk⟩
 
 /-- the persisted records after a write: the written one (as stamped), or what was there -/
 theorem cur_write (s : Sys) (cfg : Cfg) (r : Rec) (rid : RunId) (w : Rec) (h : (s.write cfg r).cur rid = some w) :
@@ -69,12 +101,17 @@ theorem TokInv.write {s : Sys} (cfg : Cfg) (r : Rec) (h : TokInv s) : TokInv (s.
   have hpst : (s.write cfg r).pst = s.pst := rfl
   have hc : ∀ p, (s.write cfg r).cursor p = s.cursor p := fun p => rfl
   refine ⟨fun rid w hw hl => ?_, fun st k n => by rw [hc, hlog]; exact h.cursorLe st k n,
-    fun st k n i u => h.noLag st k n i u⟩
-  rcases cur_write s cfg r rid w hw with rfl | hold
-  · exact Or.inl ⟨{ ord := s.outN, ev := Routing.route (if cfg.stamp then { r with updatedAt := s.now } else r) }, by rw [hob]; simp, rfl⟩
-  · rcases h.pending rid w hold hl with ⟨o, ho, he⟩ | ⟨i, e, hi, hc', hk⟩
-    · exact Or.inl ⟨o, by rw [hob]; simp [ho], he⟩
-    · exact Or.inr ⟨i, e, by rw [hlog]; exact hi, hc', fun k n hf => hk k n hf⟩
+    fun st k n i u hp => (h.lag st k n i u hp).mono (fun j _ => by rw [hlog]) (Nat.le_refl _), fun rid w hw hl => ?_, by rw [hc, hlog]; exact h.cursorLeDel, h.noLagDel⟩
+  · rcases cur_write s cfg r rid w hw with rfl | hold
+    · exact Or.inl ⟨{ ord := s.outN, ev := Routing.route (if cfg.stamp then { r with updatedAt := s.now } else r) }, by rw [hob]; simp, rfl⟩
+    · rcases h.pending rid w hold hl with ⟨o, ho, he⟩ | ⟨i, e, hi, hc', hk⟩
+      · exact Or.inl ⟨o, by rw [hob]; simp [ho], he⟩
+      · exact Or.inr ⟨i, e, by rw [hlog]; exact hi, hc', fun k n hf => hk k n hf⟩
+  · rcases cur_write s cfg r rid w hw with rfl | hold
+    · exact Or.inl ⟨{ ord := s.outN, ev := Routing.route (if cfg.stamp then { r with updatedAt := s.now } else r) }, by rw [hob]; simp, rfl⟩
+    · rcases h.pendingDel rid w hold hl with ⟨o, ho, he⟩ | ⟨i, e, hi, hc', hk⟩
+      · exact Or.inl ⟨o, by rw [hob]; simp [ho], he⟩
+      · exact Or.inr ⟨i, e, by rw [hlog]; exact hi, hc', hk⟩
 
 theorem TokInv.stableH (cfg : Cfg) : StableH TokInv cfg where
   write := fun _ r h => h.write cfg r
@@ -84,8 +121,10 @@ theorem TokInv.stableH (cfg : Cfg) : StableH TokInv cfg where
   setCount := fun _ _ _ h => h.frame rfl rfl rfl rfl rfl
   setHandles := fun _ _ h => h.frame rfl rfl rfl rfl rfl
 
+/-- the consumers whose cursors the invariant constrains: step consumers and the delete consumer -/
 def IsStep : Proc → Bool
   | .step _ _ _ => true
+  | .delete => true
   | _ => false
 
 /-- a process that is not a step consumer moves its own cursor only -/
@@ -93,29 +132,56 @@ theorem TokInv.setCursor_other {s : Sys} (h : TokInv s) (p : Proc) (n : Nat) (hp
   have hc : ∀ st k m, (s.setCursor p n).cursor (.step st k m) = s.cursor (.step st k m) := by
     intro st k m
     exact cursor_setCursor_ne s p _ n (by intro heq; rw [← heq] at hp; simp [IsStep] at hp)
-  refine ⟨fun rid w hw hl => ?_, fun st k m => by rw [hc]; exact h.cursorLe st k m, fun st k m i u => h.noLag st k m i u⟩
-  rcases h.pending rid w hw hl with ho | ⟨i, e, hi, hc', hk⟩
-  · exact Or.inl ho
-  · exact Or.inr ⟨i, e, hi, hc', fun k m hf => by rw [hc]; exact hk k m hf⟩
+  have hcd : (s.setCursor p n).cursor .delete = s.cursor .delete :=
+    cursor_setCursor_ne s p _ n (by intro heq; rw [← heq] at hp; simp [IsStep] at hp)
+  refine ⟨fun rid w hw hl => ?_, fun st k m => by rw [hc]; exact h.cursorLe st k m,
+    fun st k m i u hps => (h.lag st k m i u hps).mono (fun j _ => rfl) (by rw [hc]; exact Nat.le_refl _),
+    fun rid w hw hl => ?_, by rw [hcd]; exact h.cursorLeDel, h.noLagDel⟩
+  · rcases h.pending rid w hw hl with ho | ⟨i, e, hi, hc', hk⟩
+    · exact Or.inl ho
+    · exact Or.inr ⟨i, e, hi, hc', fun k m hf => by rw [hc]; exact hk k m hf⟩
+  · rcases h.pendingDel rid w hw hl with ho | ⟨i, e, hi, hc', hk⟩
+    · exact Or.inl ho
+    · exact Or.inr ⟨i, e, hi, hc', by rw [hcd]; exact hk⟩
 
-theorem TokInv.setPState {s : Sys} (h : TokInv s) (p : Proc) (x : PState) (hx : IsStep p = true → ∀ i u, x ≠ .lagWait i u) :
+theorem TokInv.setPState {s : Sys} (h : TokInv s) (p : Proc) (x : PState)
+    (hx : ∀ i u, x = .lagWait i u → (∀ st k n, p = .step st k n → LagOk s p i) ∧ p ≠ .delete) :
     TokInv (s.setPState p x) := by
-  refine ⟨h.pending, h.cursorLe, fun st k n i u => ?_⟩
-  by_cases hp : Proc.step st k n = p
-  · rw [hp, pstate_setPState]; exact hx (by rw [← hp]; rfl) i u
-  · rw [pstate_setPState_ne s p _ x hp]; exact h.noLag st k n i u
+  refine ⟨h.pending, h.cursorLe, fun st k n i u hps => ?_, h.pendingDel, h.cursorLeDel, fun i u => ?_⟩
+  · by_cases hp : Proc.step st k n = p
+    · rw [hp, pstate_setPState] at hps
+      have := (hx i u hps).1 st k n hp.symm
+      rw [← hp] at this
+      exact this.mono (fun j _ => rfl) (Nat.le_refl _)
+    · rw [pstate_setPState_ne s p _ x hp] at hps
+      exact (h.lag st k n i u hps).mono (fun j _ => rfl) (Nat.le_refl _)
+  · by_cases hp : Proc.delete = p
+    · rw [hp, pstate_setPState]
+      intro hxx
+      exact (hx i u hxx).2 hp.symm
+    · rw [pstate_setPState_ne s p _ x hp]; exact h.noLagDel i u
 
 theorem TokInv.tick {s : Sys} (h : TokInv s) (d : Int) : TokInv (s.tick d) := h.frame rfl rfl rfl rfl rfl
 
 /-- publishing (or duplicating) an event: the log only grows -/
 theorem TokInv.relaySend {s : Sys} (h : TokInv s) (e : Event) : TokInv (s.relaySend e) := by
   have hlog : (s.relaySend e).log = s.log ++ [e] := rfl
-  refine ⟨fun rid w hw hl => ?_, fun st k n => ?_, h.noLag⟩
+  refine ⟨fun rid w hw hl => ?_, fun st k n => ?_,
+    fun st k n i u hps => (h.lag st k n i u hps).mono (fun j hj => by rw [hlog, List.getElem?_append_left hj]) (Nat.le_refl _),
+    fun rid w hw hl => ?_, ?_, h.noLagDel⟩
   · rcases h.pending rid w hw hl with ho | ⟨i, e', hi, hc', hk⟩
     · exact Or.inl ho
     · refine Or.inr ⟨i, e', ?_, hc', hk⟩
       rw [hlog, List.getElem?_append_left (List.getElem?_eq_some_iff.mp hi).1]; exact hi
   · have := h.cursorLe st k n
+    rw [hlog, List.length_append]
+    show s.cursor _ ≤ _
+    omega
+  · rcases h.pendingDel rid w hw hl with ho | ⟨i, e', hi, hc', hk⟩
+    · exact Or.inl ho
+    · refine Or.inr ⟨i, e', ?_, hc', hk⟩
+      rw [hlog, List.getElem?_append_left (List.getElem?_eq_some_iff.mp hi).1]; exact hi
+  · have := h.cursorLeDel
     rw [hlog, List.length_append]
     show s.cursor _ ≤ _
     omega
@@ -129,17 +195,31 @@ theorem live_route_subscribed {w : Rec} (hl : Live w) {e : Event} (hc : core e =
     rcases hl with h | h <;> rw [h] <;> decide
   simp [subscribed, h1, h2, Routing.route, hk]
 
-/-- what the step consumer's `Recv` established: nothing of its topic lies between its cursor and the event it is handling -/
-def NoGap (s : Sys) (p : Proc) (i : Nat) : Prop :=
-  ∀ j e, s.cursor p ≤ j → j < i → s.log[j]? = some e → subscribed p e = false
 
 /-- a step consumer's acknowledgement of event `i`: filtered out for this shard, or the announced version is done with -/
 theorem TokInv.setCursor_step {cfg : Cfg} {s : Sys} (h : TokInv s) (hh : HistInv cfg s) (st : Status) (k n : Int) (i : Nat) (e : Event)
     (he : s.log[i]? = some e) (hgap : NoGap s (.step st k n) i)
+    (hps : ∀ i' u, s.pstate (.step st k n) = .lagWait i' u → i' = i)
     (hdone : filteredOut (.step st k n) i e = true ∨ Done e.runId e.version s.runs) :
     TokInv (s.setCursor (.step st k n) (i + 1)) := by
   have hilt : i < s.log.length := (List.getElem?_eq_some_iff.mp he).1
-  refine ⟨fun rid w hw hl => ?_, fun st' k' n' => ?_, h.noLag⟩
+  have hcd : (s.setCursor (.step st k n) (i + 1)).cursor .delete = s.cursor .delete :=
+    cursor_setCursor_ne s _ _ _ (by intro heq; cases heq)
+  refine ⟨fun rid w hw hl => ?_, fun st' k' n' => ?_, fun st' k' n' i' u hp' => ?_, fun rid w hw hl => ?_, by rw [hcd]; exact h.cursorLeDel, h.noLagDel⟩
+  rotate_left 2
+  · have hp'' : s.pstate (.step st' k' n') = .lagWait i' u := hp'
+    have hold := h.lag st' k' n' i' u hp''
+    by_cases hpe : Proc.step st' k' n' = Proc.step st k n
+    · rw [hpe] at hp'' hold ⊢
+      have := hps i' u hp''
+      subst this
+      refine ⟨hold.1, fun j e' h1 h2 _ => ?_⟩
+      rw [cursor_setCursor] at h1
+      omega
+    · exact hold.mono (fun j _ => rfl) (by rw [cursor_setCursor_ne s _ _ _ hpe]; exact Nat.le_refl _)
+  · rcases h.pendingDel rid w hw hl with ho | ⟨j, e', hj, hc', hk⟩
+    · exact Or.inl ho
+    · exact Or.inr ⟨j, e', hj, hc', by rw [hcd]; exact hk⟩
   · rcases h.pending rid w hw hl with ho | ⟨j, e', hj, hc', hk⟩
     · exact Or.inl ho
     · refine Or.inr ⟨j, e', hj, hc', fun k' n' hf => ?_⟩
@@ -193,7 +273,25 @@ theorem TokInv.relaySendDelete {s : Sys} (h : TokInv s) (o : OutE) (t : Int)
   have hcur : ∀ p, ((s.relaySend { o.ev with createdAt := t }).relayDelete o.ord).cursor p = s.cursor p := fun _ => rfl
   have hmem : ∀ o', o' ∈ ((s.relaySend { o.ev with createdAt := t }).relayDelete o.ord).outbox ↔ o' ∈ s.outbox ∧ o'.ord ≠ o.ord := by
     intro o'; simp [Sys.relayDelete, Sys.relaySend]
-  refine ⟨fun rid w hw hl => ?_, fun st k n => ?_, h.noLag⟩
+  refine ⟨fun rid w hw hl => ?_, fun st k n => ?_,
+    fun st k n i u hps => (h.lag st k n i u hps).mono (fun j hj => by rw [hlog, List.getElem?_append_left hj]) (by rw [hcur]; exact Nat.le_refl _),
+    fun rid w hw hl => ?_, ?_, h.noLagDel⟩
+  rotate_left 2
+  · have hw' : s.cur rid = some w := hw
+    rcases h.pendingDel rid w hw' hl with ⟨o', ho', he⟩ | ⟨i, e', hi, hc', hk⟩
+    · by_cases hord : o'.ord = o.ord
+      · have : o' = o := huniq o' ho' hord
+        subst this
+        refine Or.inr ⟨s.log.length, { o'.ev with createdAt := t }, ?_, ?_, ?_⟩
+        · rw [hlog, List.getElem?_append_right (Nat.le_refl _)]; simp
+        · rw [he]; rfl
+        · rw [hcur]; exact h.cursorLeDel
+      · exact Or.inl ⟨o', (hmem o').mpr ⟨ho', hord⟩, he⟩
+    · refine Or.inr ⟨i, e', ?_, hc', by rw [hcur]; exact hk⟩
+      rw [hlog, List.getElem?_append_left (List.getElem?_eq_some_iff.mp hi).1]; exact hi
+  · rw [hcur, hlog, List.length_append]
+    have := h.cursorLeDel
+    omega
   · have hw' : s.cur rid = some w := hw
     rcases h.pending rid w hw' hl with ⟨o', ho', he⟩ | ⟨i, e', hi, hc', hk⟩
     · by_cases hord : o'.ord = o.ord
@@ -319,7 +417,8 @@ theorem Pres.procOpP {I : Sys → Prop} (h : StableH I cfg) (hrel : Pres I (Engi
 theorem procOp_other_RT (p : Proc) (hp : IsStep p = false) : Pres RT (Engine.procOp cfg p) :=
   Pres.procOpP (RT.stableH cfg) (Pres.relayOp_RT cfg) p
     (fun s n h => ⟨(RelayInv.stable cfg).setCursor s p n h.1, h.2.setCursor_other p n hp⟩)
-    (fun s x h => ⟨(RelayInv.stable cfg).setPState s p x h.1, h.2.setPState p x (fun hs => by rw [hp] at hs; cases hs)⟩)
+    (fun s x h => ⟨(RelayInv.stable cfg).setPState s p x h.1, h.2.setPState p x (fun i u _ =>
+      ⟨fun st k n hpe => by rw [hpe] at hp; simp [IsStep] at hp, fun hpe => by rw [hpe] at hp; simp [IsStep] at hp⟩)⟩)
 
 end WorkflowModel.Engine
 
@@ -378,17 +477,19 @@ theorem handle_step_facts (hn : NoNested env) (hs : NoSkip env) (S : Status) (k 
 
 theorem deliver_step_tok (hn : NoNested env) (hs : NoSkip env) (S : Status) (k n : Int) (i : Nat) (e : Event) (st : OpSt)
     (hi : Inv cfg st.sys) (hz : st.stale = 0) (ht : TokInv st.sys) (he : st.sys.log[i]? = some e)
-    (hgap : NoGap st.sys (.step S k n) i) : TokInv (deliver cfg (.step S k n) i e env st).2.sys := by
+    (hgap : NoGap st.sys (.step S k n) i) (hps : ∀ i' u, st.sys.pstate (.step S k n) = .lagWait i' u → i' = i) :
+    TokInv (deliver cfg (.step S k n) i e env st).2.sys := by
   unfold deliver
   split
   · rename_i hfo
     rcases ack_sys (.step S k n) i env st with h | h
     · rw [h]; exact ht
-    · rw [h]; exact ht.setCursor_step hi.hist S k n i e he hgap (Or.inl hfo)
+    · rw [h]; exact ht.setCursor_step hi.hist S k n i e he hgap hps (Or.inl hfo)
   · rw [bind_run]
     obtain ⟨b1, _, b3, b4, b5, b6⟩ := handle_step_facts (cfg := cfg) hn hs S k n e st hi hz ht
+    have b7 := (handle_frame cfg (.step S k n) e env st).2.1
     rcases hh : handle cfg (.step S k n) e env st with ⟨r, st1⟩
-    rw [hh] at b1 b3 b4 b5 b6
+    rw [hh] at b1 b3 b4 b5 b6 b7
     cases r with
     | error a => exact b3
     | ok u =>
@@ -399,9 +500,13 @@ theorem deliver_step_tok (hn : NoNested env) (hs : NoSkip env) (S : Status) (k n
         have hc : st1.sys.cursor (.step S k n) = st.sys.cursor (.step S k n) := by unfold Sys.cursor; rw [b5]
         rw [hc] at h1; rw [b6] at h3
         exact hgap j e' h1 h2 h3
+      have hps1 : ∀ i' u, st1.sys.pstate (.step S k n) = .lagWait i' u → i' = i := by
+        intro i' u hp
+        have : st1.sys.pstate (.step S k n) = st.sys.pstate (.step S k n) := by unfold Sys.pstate; rw [b7]
+        rw [this] at hp; exact hps i' u hp
       rcases ack_sys (.step S k n) i env st1 with h | h
       · rw [h]; exact b3
-      · rw [h]; exact b3.setCursor_step b1.hist S k n i e he1 hgap1 (Or.inr (b4 rfl))
+      · rw [h]; exact b3.setCursor_step b1.hist S k n i e he1 hgap1 hps1 (Or.inr (b4 rfl))
 
 end WorkflowModel.Engine
 
@@ -409,13 +514,13 @@ namespace WorkflowModel.Engine
 open WorkflowModel RS
 variable {cfg : Cfg} {env : Env}
 
-/-- no consume lag on steps (a consumer waiting for the lag is parked with an event in hand; not covered here) -/
-def NoStepLag (cfg : Cfg) : Prop := ∀ S, cfg.stepLag S = 0
-
-theorem recvOp_step_tok (hn : NoNested env) (hs : NoSkip env) (hlag : NoStepLag cfg) (S : Status) (k n : Int) (st : OpSt)
-    (hi : Inv cfg st.sys) (hz : st.stale = 0) (ht : TokInv st.sys) :
+/-- `Recv` of a step consumer that is not parked in the lag wait: afterwards it is back at `Recv`, or parked in the lag wait
+with the event it received in hand -/
+theorem recvOp_step_tok (hn : NoNested env) (hs : NoSkip env) (S : Status) (k n : Int) (st : OpSt)
+    (hi : Inv cfg st.sys) (hz : st.stale = 0) (ht : TokInv st.sys) (hps : ∀ i u, st.sys.pstate (.step S k n) ≠ .lagWait i u) :
     TokInv (recvOp cfg (.step S k n) env st).2.sys ∧
-    ∀ ps', (recvOp cfg (.step S k n) env st).1 = .ok ps' → ps' = .atRecv := by
+    ∀ ps', (recvOp cfg (.step S k n) env st).1 = .ok ps' →
+      ∀ i u, ps' = .lagWait i u → LagOk (recvOp cfg (.step S k n) env st).2.sys (.step S k n) i := by
   unfold recvOp
   rw [bind_run]
   simp only [Engine.getSys]
@@ -436,49 +541,64 @@ theorem recvOp_step_tok (hn : NoNested env) (hs : NoSkip env) (hlag : NoStepLag 
       have hst : st1.stale = st.stale := by
         have := call_stale (l := "recv") (eff := fun s => ("(" ++ evStr i e ++ ")", (Except.ok () : Except Abort Unit), s)) env st
         rw [hc] at this; exact this
+      have hsub : subscribed (.step S k n) e = true := by
+        unfold Sys.nextIndex at hni
+        obtain ⟨e', h1, h2⟩ := nextIndexFrom_subscribed _ _ _ _ _ hni
+        rw [hle] at h1; cases h1; exact h2
+      have hgap : NoGap st1.sys (.step S k n) i := by
+        intro j e' h1 h2 h3
+        rw [hsys] at h1 h3
+        unfold Sys.nextIndex at hni
+        exact (nextIndexFrom_nogap _ _ _ _ _ hni).2 j e' h1 h2 h3
       cases r with
       | error a => exact ⟨by rw [hsys]; exact ht, fun _ h => by cases h⟩
       | ok u =>
-        simp only [procLag, hlag S]
-        have hw : Gen.G.consumeMustWait 0 (Gen.G.consumeDelay 0 (st.sys.now - e.createdAt)) = false := by
-          simp [Gen.G.consumeMustWait]
-        rw [if_neg (by rw [hw]; simp)]
-        rw [bind_run]
-        have hgap : NoGap st1.sys (.step S k n) i := by
-          intro j e' h1 h2 h3
-          rw [hsys] at h1 h3
-          unfold Sys.nextIndex at hni
-          exact (nextIndexFrom_nogap _ _ _ _ _ hni).2 j e' h1 h2 h3
-        have htok := deliver_step_tok (cfg := cfg) hn hs S k n i e st1 (by rw [hsys]; exact hi) (by rw [hst]; exact hz)
-          (by rw [hsys]; exact ht) (by rw [hsys]; exact hle) hgap
-        rcases hd : deliver cfg (.step S k n) i e env st1 with ⟨r2, st2⟩
-        rw [hd] at htok
-        cases r2 with
-        | error a => exact ⟨htok, fun _ h => by cases h⟩
-        | ok _ => exact ⟨htok, fun ps' h => by cases h; rfl⟩
+        simp only []
+        split
+        · refine ⟨by show TokInv st1.sys; rw [hsys]; exact ht, fun ps' h i' u' hl => ?_⟩
+          cases h
+          cases hl
+          exact ⟨⟨e, by show st1.sys.log[i]? = some e; rw [hsys]; exact hle, hsub⟩, hgap⟩
+        · rw [bind_run]
+          have htok := deliver_step_tok (cfg := cfg) hn hs S k n i e st1 (by rw [hsys]; exact hi) (by rw [hst]; exact hz)
+            (by rw [hsys]; exact ht) (by rw [hsys]; exact hle) hgap (fun i' u hp => by rw [hsys] at hp; exact absurd hp (hps i' u))
+          rcases hd : deliver cfg (.step S k n) i e env st1 with ⟨r2, st2⟩
+          rw [hd] at htok
+          cases r2 with
+          | error a => exact ⟨htok, fun _ h => by cases h⟩
+          | ok _ => exact ⟨htok, fun ps' h i' u' hl => by cases h; cases hl⟩
 
-end WorkflowModel.Engine
-
-namespace WorkflowModel.Engine
-open WorkflowModel RS
-variable {cfg : Cfg} {env : Env}
-
-theorem procBody_step_tok (hn : NoNested env) (hs : NoSkip env) (hlag : NoStepLag cfg) (S : Status) (k n : Int) (ps : PState)
-    (hps : ∀ i u, ps ≠ .lagWait i u) (st : OpSt) (hi : Inv cfg st.sys) (hz : st.stale = 0) (ht : TokInv st.sys) :
-    TokInv (procBody cfg (.step S k n) ps env st).2.sys ∧
-    ∀ ps', (procBody cfg (.step S k n) ps env st).1 = .ok ps' → ∀ i u, ps' ≠ .lagWait i u := by
-  cases ps with
-  | lagWait i u => exact absurd rfl (hps i u)
+theorem procBody_step_tok (hn : NoNested env) (hs : NoSkip env) (S : Status) (k n : Int) (st : OpSt)
+    (hi : Inv cfg st.sys) (hz : st.stale = 0) (ht : TokInv st.sys) :
+    TokInv (procBody cfg (.step S k n) (st.sys.pstate (.step S k n)) env st).2.sys ∧
+    ∀ ps', (procBody cfg (.step S k n) (st.sys.pstate (.step S k n)) env st).1 = .ok ps' →
+      ∀ i u, ps' = .lagWait i u → LagOk (procBody cfg (.step S k n) (st.sys.pstate (.step S k n)) env st).2.sys (.step S k n) i := by
+  cases hps : st.sys.pstate (.step S k n) with
+  | lagWait i u =>
+    unfold procBody
+    simp only []
+    rw [bind_run]
+    simp only [Engine.getSys]
+    obtain ⟨⟨e, he, hsub⟩, hgap⟩ := ht.lag S k n i u hps
+    rw [he]
+    simp only [hsub, if_true]
+    rw [bind_run]
+    have htok := deliver_step_tok (cfg := cfg) hn hs S k n i e st hi hz ht he hgap
+      (fun i' u' hp => by rw [hps] at hp; cases hp; rfl)
+    rcases hd : deliver cfg (.step S k n) i e env st with ⟨r2, st2⟩
+    rw [hd] at htok
+    cases r2 with
+    | error a => exact ⟨htok, fun _ h => by cases h⟩
+    | ok _ => exact ⟨htok, fun ps' h i' u' hl => by cases h; cases hl⟩
   | backoff u =>
     unfold procBody
-    exact ⟨ht, fun ps' h i u => by cases h; simp⟩
+    exact ⟨ht, fun ps' h i u hl => by cases h; cases hl⟩
   | atPoll since =>
     unfold procBody
-    exact ⟨ht, fun ps' h i u => by cases h; simp⟩
+    exact ⟨ht, fun ps' h i u hl => by cases h; cases hl⟩
   | atRecv =>
     unfold procBody
-    obtain ⟨h1, h2⟩ := recvOp_step_tok (cfg := cfg) hn hs hlag S k n st hi hz ht
-    exact ⟨h1, fun ps' h i u => by rw [h2 ps' h]; simp⟩
+    exact recvOp_step_tok (cfg := cfg) hn hs S k n st hi hz ht (fun i u hp => by rw [hps] at hp; cases hp)
   | needRole =>
     unfold procBody
     simp only
@@ -494,17 +614,11 @@ theorem procBody_step_tok (hn : NoNested env) (hs : NoSkip env) (hlag : NoStepLa
     cases r with
     | error a => exact ⟨by rw [hs1]; exact ht, fun _ h => by cases h⟩
     | ok _ =>
-      refine ⟨?_, fun ps' h i u => by cases h; simp⟩
+      refine ⟨?_, fun ps' h i u hl => by cases h; cases hl⟩
       show TokInv st1.sys
       rw [hs1]; exact ht
 
-end WorkflowModel.Engine
-
-namespace WorkflowModel.Engine
-open WorkflowModel RS
-variable {cfg : Cfg} {env : Env}
-
-theorem procOp_step_tok (hn : NoNested env) (hs : NoSkip env) (hlag : NoStepLag cfg) (S : Status) (k n : Int) (st : OpSt)
+theorem procOp_step_tok (hn : NoNested env) (hs : NoSkip env) (S : Status) (k n : Int) (st : OpSt)
     (hi : Inv cfg st.sys) (hz : st.stale = 0) (ht : TokInv st.sys) :
     TokInv (procOp cfg (.step S k n) env st).2.sys := by
   unfold procOp
@@ -512,9 +626,215 @@ theorem procOp_step_tok (hn : NoNested env) (hs : NoSkip env) (hlag : NoStepLag 
   simp only [Engine.getSys]
   rw [bind_run]
   unfold Engine.tryM
-  obtain ⟨h1, h2⟩ := procBody_step_tok (cfg := cfg) hn hs hlag S k n (st.sys.pstate (.step S k n))
-    (fun i u => ht.noLag S k n i u) st hi hz ht
+  obtain ⟨h1, h2⟩ := procBody_step_tok (cfg := cfg) hn hs S k n st hi hz ht
   rcases hb : procBody cfg (.step S k n) (st.sys.pstate (.step S k n)) env st with ⟨r, st1⟩
+  rw [hb] at h1 h2
+  have hvac : ∀ (x : PState), (∀ i u, x ≠ .lagWait i u) →
+      ∀ i u, x = .lagWait i u → (∀ st' k' n', Proc.step S k n = .step st' k' n' → LagOk st1.sys (.step S k n) i) ∧ Proc.step S k n ≠ .delete :=
+    fun x hx i u hl => absurd hl (hx i u)
+  cases r with
+  | ok ps' =>
+    simp only
+    rw [bind_run]
+    simp only [Engine.isCancelled]
+    cases hdead : st1.cancelled with
+    | false =>
+      simp only [Engine.modifySys]
+      exact h1.setPState _ ps' (fun i u hl => ⟨fun _ _ _ _ => h2 ps' rfl i u hl, by intro h; cases h⟩)
+    | true =>
+      simp only [bind_run, Engine.openedReceiver, Engine.emitIf, Engine.getSys, Engine.modifySys]
+      split <;> exact h1.setPState _ _ (hvac _ (fun i u => by simp))
+  | error a =>
+    simp only
+    rw [bind_run]
+    simp only [Engine.isCancelled]
+    simp only [bind_run, Engine.openedReceiver, Engine.emitIf, Engine.getSys, Engine.modifySys]
+    split <;> (try split) <;> exact h1.setPState _ _ (hvac _ (fun i u => by first | simp | (split <;> simp)))
+
+end WorkflowModel.Engine
+
+namespace WorkflowModel.Engine
+open WorkflowModel RS
+variable {cfg : Cfg} {env : Env}
+
+/-! ## the delete consumer -/
+
+theorem rdd_route_subscribed {w : Rec} (h7 : w.runState = 7) {e : Event} (hc : core e = Routing.route w) :
+    subscribed .delete e = true := by
+  have h1 : e.topicKind = (Routing.route w).topicKind := by rw [← hc]; rfl
+  have hk : Gen.outboxTopicKind w.runState = 1 := by rw [h7]; decide
+  simp [subscribed, h1, Routing.route, hk]
+
+/-- the delete consumer's acknowledgement of event `i`, after which the run is not RequestedDataDeleted -/
+theorem TokInv.setCursor_delete {cfg : Cfg} {s : Sys} (h : TokInv s) (hh : HistInv cfg s) (i : Nat) (e : Event)
+    (he : s.log[i]? = some e) (hgap : NoGap s .delete i)
+    (hdone : ∀ w, curR s.runs e.runId = some w → w.runState ≠ 7) :
+    TokInv (s.setCursor .delete (i + 1)) := by
+  have hilt : i < s.log.length := (List.getElem?_eq_some_iff.mp he).1
+  have hcs : ∀ st k n, (s.setCursor .delete (i + 1)).cursor (.step st k n) = s.cursor (.step st k n) :=
+    fun st k n => cursor_setCursor_ne s _ _ _ (by intro heq; cases heq)
+  refine ⟨fun rid w hw hl => ?_, fun st k n => by rw [hcs]; exact h.cursorLe st k n,
+    fun st k n i' u hps => (h.lag st k n i' u hps).mono (fun j _ => rfl) (by rw [hcs]; exact Nat.le_refl _),
+    fun rid w hw h7 => ?_, ?_, h.noLagDel⟩
+  · rcases h.pending rid w hw hl with ho | ⟨j, e', hj, hc', hk⟩
+    · exact Or.inl ho
+    · exact Or.inr ⟨j, e', hj, hc', fun k n hf => by rw [hcs]; exact hk k n hf⟩
+  · rcases h.pendingDel rid w hw h7 with ho | ⟨j, e', hj, hc', hk⟩
+    · exact Or.inl ho
+    · refine Or.inr ⟨j, e', hj, hc', ?_⟩
+      rw [cursor_setCursor]
+      have hsub := rdd_route_subscribed h7 hc'
+      have hji : i ≤ j := by
+        by_cases hlt : j < i
+        · have := hgap j e' hk hlt hj
+          rw [hsub] at this; cases this
+        · omega
+      by_cases heq : j = i
+      · exfalso
+        subst heq
+        rw [he] at hj; cases hj
+        have hid : e.runId = w.runId := by
+          have : e.runId = (Routing.route w).runId := by rw [← hc']; rfl
+          exact this
+        have hcur : curR s.runs e.runId = some w := by
+          have hw' : curR s.runs rid = some w := hw
+          rw [hid, (isHead_of_curR hh hw').2]; exact hw'
+        exact hdone w hcur h7
+      · omega
+  · rw [cursor_setCursor]
+    show i + 1 ≤ s.log.length
+    omega
+
+theorem handle_delete_facts (e : Event) (st : OpSt) (hi : Inv cfg st.sys) (hz : st.stale = 0) (ht : TokInv st.sys)
+    (he : e ∈ st.sys.log) (hk : e.topicKind = 1) :
+    Inv cfg (handle cfg .delete e env st).2.sys ∧ TokInv (handle cfg .delete e env st).2.sys ∧
+    ((handle cfg .delete e env st).1 = .ok () → ∀ w, curR (handle cfg .delete e env st).2.sys.runs e.runId = some w → w.runState ≠ 7) ∧
+    (handle cfg .delete e env st).2.sys.cursors = st.sys.cursors ∧ (handle cfg .delete e env st).2.sys.log = st.sys.log := by
+  have hd : HT cfg env (fun R => HasRDD R e.runId) (handle cfg .delete e) (fun _ R => ∃ h, curR R e.runId = some h ∧ h.runState = 6) := by
+    unfold handle
+    exact deleteHandle_done e
+  obtain ⟨a1, _, a3⟩ := hd st hi hz (hasRDD_of_delete_event hi he hk)
+  have hf := handle_frame cfg .delete e env st
+  refine ⟨a1, Pres.handle (TokInv.stableH cfg) _ e env st ht, fun hok w hw => ?_, hf.1, hf.2.2⟩
+  obtain ⟨h, h1, h2⟩ := a3 () hok
+  rw [hw] at h1; cases h1
+  rw [h2]; decide
+
+theorem deliver_delete_tok (i : Nat) (e : Event) (st : OpSt)
+    (hi : Inv cfg st.sys) (hz : st.stale = 0) (ht : TokInv st.sys) (he : st.sys.log[i]? = some e) (hk : e.topicKind = 1)
+    (hgap : NoGap st.sys .delete i) : TokInv (deliver cfg .delete i e env st).2.sys := by
+  unfold deliver
+  split
+  · rename_i hfo; simp [filteredOut] at hfo
+  · rw [bind_run]
+    obtain ⟨b1, b3, b4, b5, b6⟩ := handle_delete_facts (cfg := cfg) (env := env) e st hi hz ht (List.mem_of_getElem? he) hk
+    rcases hh : handle cfg .delete e env st with ⟨r, st1⟩
+    rw [hh] at b1 b3 b4 b5 b6
+    cases r with
+    | error a => exact b3
+    | ok u =>
+      simp only
+      have he1 : st1.sys.log[i]? = some e := by rw [b6]; exact he
+      have hgap1 : NoGap st1.sys .delete i := by
+        intro j e' h1 h2 h3
+        have hc : st1.sys.cursor .delete = st.sys.cursor .delete := by unfold Sys.cursor; rw [b5]
+        rw [hc] at h1; rw [b6] at h3
+        exact hgap j e' h1 h2 h3
+      rcases ack_sys .delete i env st1 with h | h
+      · rw [h]; exact b3
+      · rw [h]; exact b3.setCursor_delete b1.hist i e he1 hgap1 (b4 rfl)
+
+theorem recvOp_delete_tok (st : OpSt) (hi : Inv cfg st.sys) (hz : st.stale = 0) (ht : TokInv st.sys) :
+    TokInv (recvOp cfg .delete env st).2.sys ∧ ∀ ps', (recvOp cfg .delete env st).1 = .ok ps' → ps' = .atRecv := by
+  unfold recvOp
+  rw [bind_run]
+  simp only [Engine.getSys]
+  cases hni : st.sys.nextIndex .delete with
+  | none => exact ⟨ht, fun _ h => by cases h⟩
+  | some i =>
+    simp only
+    cases hle : st.sys.log[i]? with
+    | none => exact ⟨ht, fun _ h => by cases h⟩
+    | some e =>
+      simp only
+      rw [bind_run]
+      rcases hc : Engine.call "recv" (fun s => ("(" ++ evStr i e ++ ")", (Except.ok () : Except Abort Unit), s)) env st with ⟨r, st1⟩
+      have hsys : st1.sys = st.sys := by
+        have := call_sys "recv" (fun s => ("(" ++ evStr i e ++ ")", (Except.ok () : Except Abort Unit), s)) env st
+        rw [hc] at this
+        rcases this with ⟨a, _⟩ | a <;> exact a
+      have hst : st1.stale = st.stale := by
+        have := call_stale (l := "recv") (eff := fun s => ("(" ++ evStr i e ++ ")", (Except.ok () : Except Abort Unit), s)) env st
+        rw [hc] at this; exact this
+      cases r with
+      | error a => exact ⟨by rw [hsys]; exact ht, fun _ h => by cases h⟩
+      | ok u =>
+        simp only []
+        split
+        · rename_i hmw
+          simp [procLag, Gen.G.consumeMustWait] at hmw
+        rw [bind_run]
+        have hsub : subscribed .delete e = true := by
+          unfold Sys.nextIndex at hni
+          obtain ⟨e', h1, h2⟩ := nextIndexFrom_subscribed _ _ _ _ _ hni
+          rw [hle] at h1; cases h1; exact h2
+        have hgap : NoGap st1.sys .delete i := by
+          intro j e' h1 h2 h3
+          rw [hsys] at h1 h3
+          unfold Sys.nextIndex at hni
+          exact (nextIndexFrom_nogap _ _ _ _ _ hni).2 j e' h1 h2 h3
+        have htok := deliver_delete_tok (cfg := cfg) (env := env) i e st1 (by rw [hsys]; exact hi) (by rw [hst]; exact hz)
+          (by rw [hsys]; exact ht) (by rw [hsys]; exact hle) (subscribed_delete hsub) hgap
+        rcases hd : deliver cfg .delete i e env st1 with ⟨r2, st2⟩
+        rw [hd] at htok
+        cases r2 with
+        | error a => exact ⟨htok, fun _ h => by cases h⟩
+        | ok _ => exact ⟨htok, fun ps' h => by cases h; rfl⟩
+
+theorem procBody_delete_tok (ps : PState) (hps : ∀ i u, ps ≠ .lagWait i u) (st : OpSt) (hi : Inv cfg st.sys) (hz : st.stale = 0)
+    (ht : TokInv st.sys) :
+    TokInv (procBody cfg .delete ps env st).2.sys ∧
+    ∀ ps', (procBody cfg .delete ps env st).1 = .ok ps' → ∀ i u, ps' ≠ .lagWait i u := by
+  cases ps with
+  | lagWait i u => exact absurd rfl (hps i u)
+  | backoff u =>
+    unfold procBody
+    exact ⟨ht, fun ps' h i u => by cases h; simp⟩
+  | atPoll since =>
+    unfold procBody
+    exact ⟨ht, fun ps' h i u => by cases h; simp⟩
+  | atRecv =>
+    unfold procBody
+    obtain ⟨h1, h2⟩ := recvOp_delete_tok (cfg := cfg) (env := env) st hi hz ht
+    exact ⟨h1, fun ps' h i u => by rw [h2 ps' h]; simp⟩
+  | needRole =>
+    unfold procBody
+    simp only
+    rw [bind_run]
+    simp only [Engine.emit]
+    rw [bind_run]
+    unfold newReceiver
+    rcases hc : Engine.call _ _ env _ with ⟨r, st1⟩
+    have hsys := call_sys (s!"newrecv({topicOf .delete})") (fun s => (("", .ok (), s) : String × Except Abort Unit × Sys)) env
+      { st with obs := "await" :: st.obs }
+    rw [hc] at hsys
+    have hs1 : st1.sys = st.sys := by rcases hsys with ⟨a, _⟩ | a <;> exact a
+    cases r with
+    | error a => exact ⟨by rw [hs1]; exact ht, fun _ h => by cases h⟩
+    | ok _ =>
+      refine ⟨?_, fun ps' h i u => by cases h; simp⟩
+      show TokInv st1.sys
+      rw [hs1]; exact ht
+
+theorem procOp_delete_tok (st : OpSt) (hi : Inv cfg st.sys) (hz : st.stale = 0) (ht : TokInv st.sys) :
+    TokInv (procOp cfg .delete env st).2.sys := by
+  unfold procOp
+  rw [bind_run]
+  simp only [Engine.getSys]
+  rw [bind_run]
+  unfold Engine.tryM
+  obtain ⟨h1, h2⟩ := procBody_delete_tok (cfg := cfg) (env := env) (st.sys.pstate .delete) (fun i u => ht.noLagDel i u) st hi hz ht
+  rcases hb : procBody cfg .delete (st.sys.pstate .delete) env st with ⟨r, st1⟩
   rw [hb] at h1 h2
   cases r with
   | ok ps' =>
@@ -524,16 +844,16 @@ theorem procOp_step_tok (hn : NoNested env) (hs : NoSkip env) (hlag : NoStepLag 
     cases hdead : st1.cancelled with
     | false =>
       simp only [Engine.modifySys]
-      exact h1.setPState _ ps' (fun _ => h2 ps' rfl)
+      exact h1.setPState _ ps' (fun i u hl => absurd hl (h2 ps' rfl i u))
     | true =>
       simp only [bind_run, Engine.openedReceiver, Engine.emitIf, Engine.getSys, Engine.modifySys]
-      split <;> exact h1.setPState _ _ (fun _ i u => by simp)
+      split <;> exact h1.setPState _ _ (fun i u hl => by simp at hl)
   | error a =>
     simp only
     rw [bind_run]
     simp only [Engine.isCancelled]
     simp only [bind_run, Engine.openedReceiver, Engine.emitIf, Engine.getSys, Engine.modifySys]
-    split <;> (try split) <;> exact h1.setPState _ _ (fun _ i u => by first | simp | (split <;> simp))
+    split <;> (try split) <;> exact h1.setPState _ _ (fun i u hl => by first | (simp at hl) | (split at hl <;> simp at hl))
 
 end WorkflowModel.Engine
 
@@ -543,6 +863,6 @@ variable {cfg : Cfg}
 
 theorem leaseLossOp_tok (p : Proc) : Pres TokInv (leaseLossOp cfg p) := by
   unfold Engine.leaseLossOp
-  repeat (first | exact Pres.modifySys (fun s hi => TokInv.setPState hi _ .needRole (fun _ i u => by simp)) | pres_core)
+  repeat (first | exact Pres.modifySys (fun s hi => TokInv.setPState hi _ .needRole (fun i u hl => by simp at hl)) | pres_core)
 
 end WorkflowModel.Engine
